@@ -20,6 +20,8 @@ pub struct Base {
     pub mpk: Vec<u8>,
     pub usk: Vec<u8>,
     pub usk2: Vec<u8>,
+    /// a key that opens both encapsulations and the header (generated after the rekey)
+    pub opener: Vec<u8>,
     pub enc_c: Vec<u8>,
     pub enc_h: Vec<u8>,
     pub hdr: Vec<u8>,
@@ -41,6 +43,7 @@ pub fn make_base() -> Base {
         format!("keygen M0 U1 t:{}", h("Dé::A && S::L")),
         format!("rekey M0 K2 t:{}", h("Dé::A")),
         "refresh M0 U0 U2 1".to_string(),
+        format!("keygen M0 U3 t:{}", h("Dé::A && S::T")),
         format!("encaps K2 E0 t:{}", h("Dé::A && S::L || Dé::A")),
         format!("encaps K2 E1 t:{}", h("S::T || Dé::A && S::T")),
         format!("hdr_gen K2 H0 t:{} x{} x{}", h("Dé::A"), hex(b"metadata"), hex(b"ad")),
@@ -48,7 +51,13 @@ pub fn make_base() -> Base {
         let o = real.step(&l);
         assert!(o.starts_with("ok"), "{l} -> {o}");
     }
+    // the opener really opens: the success paths of decaps and header decryption are what mutants reach
+    for l in ["decaps U3 E0", "decaps U3 E1", "hdr_dec U3 H0 x6164"] {
+        let o = real.step(l);
+        assert!(o.starts_with("ok 1") || o.starts_with("ok some") || o.contains("6d65746164617461"), "{l} -> {o}");
+    }
     Base {
+        opener: real.usks[3].as_ref().unwrap().serialize().unwrap().to_vec(),
         msk: real.msks[0].as_ref().unwrap().serialize().unwrap().to_vec(),
         mpk: real.mpks[2].as_ref().unwrap().serialize().unwrap().to_vec(),
         usk: real.usks[2].as_ref().unwrap().serialize().unwrap().to_vec(),
@@ -61,11 +70,13 @@ pub fn make_base() -> Base {
 }
 
 /// offsets (start, len) of every LEB128 field met while parsing `b` as `ty` with the wire reader
-fn leb_fields(ty: &str, b: &[u8]) -> Vec<(usize, usize)> {
+fn leb_fields(ty: &str, b: &[u8]) -> (Vec<(usize, usize)>, Vec<(usize, usize, usize)>) {
     // re-parse and find fields by re-encoding prefixes: simpler approach — scan with the structural reader
     // and note where each leb starts by instrumenting a tiny reader here.
     use crate::wire::sz;
     let mut out = vec![];
+    // (start of the length field, its size, length of the byte run it announces)
+    let runs = std::cell::RefCell::new(Vec::<(usize, usize, usize)>::new());
     let mut p = 0usize;
     let mut rd_leb = |p: &mut usize, out: &mut Vec<(usize, usize)>| -> Option<u64> {
         let start = *p;
@@ -97,11 +108,13 @@ fn leb_fields(ty: &str, b: &[u8]) -> Vec<(usize, usize)> {
         let nd = rd_leb(p, out)?;
         for _ in 0..nd {
             let l = rd_leb(p, out)? as usize;
+            runs.borrow_mut().push((out.last().unwrap().0, out.last().unwrap().1, l));
             skip(p, l);
             rd_leb(p, out)?;
             let na = rd_leb(p, out)?;
             for _ in 0..na {
                 let l = rd_leb(p, out)? as usize;
+                runs.borrow_mut().push((out.last().unwrap().0, out.last().unwrap().1, l));
                 skip(p, l);
                 rd_leb(p, out)?;
                 rd_leb(p, out)?;
@@ -129,7 +142,8 @@ fn leb_fields(ty: &str, b: &[u8]) -> Vec<(usize, usize)> {
                 let l = rd_leb(&mut p, &mut out)? as usize;
                 skip(&mut p, l * (32 + if f == 1 { sz::ENC } else { 0 }));
                 if ty == "hdr" {
-                    rd_leb(&mut p, &mut out)?;
+                    let l = rd_leb(&mut p, &mut out)? as usize;
+                    runs.borrow_mut().push((out.last().unwrap().0, out.last().unwrap().1, l));
                 }
             }
             "usk" => {
@@ -140,6 +154,7 @@ fn leb_fields(ty: &str, b: &[u8]) -> Vec<(usize, usize)> {
                 let nc = rd_leb(&mut p, &mut out)?;
                 for _ in 0..nc {
                     let l = rd_leb(&mut p, &mut out)? as usize;
+                    runs.borrow_mut().push((out.last().unwrap().0, out.last().unwrap().1, l));
                     skip(&mut p, l);
                     let nk = rd_leb(&mut p, &mut out)?;
                     for _ in 0..nk {
@@ -153,6 +168,7 @@ fn leb_fields(ty: &str, b: &[u8]) -> Vec<(usize, usize)> {
                 let nc = rd_leb(&mut p, &mut out)?;
                 for _ in 0..nc {
                     let l = rd_leb(&mut p, &mut out)? as usize;
+                    runs.borrow_mut().push((out.last().unwrap().0, out.last().unwrap().1, l));
                     skip(&mut p, l);
                     key(&mut p, &mut out, sz::PK, sz::EK)?;
                 }
@@ -170,6 +186,7 @@ fn leb_fields(ty: &str, b: &[u8]) -> Vec<(usize, usize)> {
                 let nc = rd_leb(&mut p, &mut out)?;
                 for _ in 0..nc {
                     let l = rd_leb(&mut p, &mut out)? as usize;
+                    runs.borrow_mut().push((out.last().unwrap().0, out.last().unwrap().1, l));
                     skip(&mut p, l);
                     let nk = rd_leb(&mut p, &mut out)?;
                     for _ in 0..nk {
@@ -184,7 +201,8 @@ fn leb_fields(ty: &str, b: &[u8]) -> Vec<(usize, usize)> {
         }
         Some(())
     })();
-    out
+    let runs = runs.into_inner();
+    (out, runs)
 }
 
 pub fn mutants(tier: &str, seed: u64, base: &Base) -> Vec<(String, Vec<u8>, String)> {
@@ -236,7 +254,33 @@ pub fn mutants(tier: &str, seed: u64, base: &Base) -> Vec<(String, Vec<u8>, Stri
             pos += if pos < 200 || pos + 100 > n { 1 } else { stride };
         }
         // every count / length / flag field replaced by boundary values
-        for (start, len) in leb_fields(ty, b) {
+        let (fields, runs) = leb_fields(ty, b);
+        // every length-prefixed byte run (names, rights, encrypted metadata) resized *consistently*: the object
+        // still parses, the run is shorter / longer than anything the library produces
+        for (start, len, run) in runs {
+            let body = start + len;
+            if body + run > n {
+                continue;
+            }
+            let sizes: Vec<usize> = if ty == "hdr" { (0..=48).collect() } else { vec![0, 1, 2, 11, 12, 27, 28, 29, 127, 128, 300] };
+            for k in sizes {
+                for fill in 0..2 {
+                    let mut m = b[..start].to_vec();
+                    leb(&mut m, k as u64);
+                    if fill == 0 {
+                        // the original bytes, cut or repeated
+                        m.extend((0..k).map(|i| if run == 0 { 0x41 } else { b[body + i % run] }));
+                    } else {
+                        m.extend((0..k).map(|_| rng.next() as u8));
+                    }
+                    m.extend_from_slice(&b[body + run..]);
+                    if m != *b {
+                        out.push((ty.to_string(), m, format!("resize@{start} {k} {fill}")));
+                    }
+                }
+            }
+        }
+        for (start, len) in fields {
             for v in &boundary {
                 let mut m = b[..start].to_vec();
                 m.extend_from_slice(v);
@@ -281,6 +325,7 @@ pub fn worker() {
     let usk = UserSecretKey::deserialize(&get(&mut lines)).unwrap();
     let enc_c = XEnc::deserialize(&get(&mut lines)).unwrap();
     let enc_h = XEnc::deserialize(&get(&mut lines)).unwrap();
+    let opener = UserSecretKey::deserialize(&get(&mut lines)).unwrap();
     let star = AccessPolicy::parse("*").unwrap();
     for line in lines {
         let line = line.unwrap();
@@ -297,6 +342,7 @@ pub fn worker() {
                         let _ = x.tracing_level();
                         let _ = x.count();
                         let _ = cc.decaps(&usk, &x);
+                        let _ = cc.decaps(&opener, &x);
                         let _ = cc.recaps(&msk, &mpk, &x);
                         let _ = x.serialize();
                         "acc"
@@ -307,6 +353,8 @@ pub fn worker() {
                     Ok(h) => {
                         let _ = h.decrypt(&cc, &usk, Some(b"ad"));
                         let _ = h.decrypt(&cc, &usk, None);
+                        let _ = h.decrypt(&cc, &opener, Some(b"ad"));
+                        let _ = h.decrypt(&cc, &opener, None);
                         let _ = h.serialize();
                         "acc"
                     }
@@ -399,7 +447,7 @@ pub fn run_workers(base: &Base, muts: &[(String, Vec<u8>, String)], timeout: Dur
                 }
             }
         });
-        for b in [&base.msk, &base.mpk, &base.usk, &base.enc_c, &base.enc_h] {
+        for b in [&base.msk, &base.mpk, &base.usk, &base.enc_c, &base.enc_h, &base.opener] {
             writeln!(stdin, "{}", hex(b)).unwrap();
         }
         // feed from a thread so that a stuck worker cannot block us
